@@ -308,9 +308,12 @@ fn tree(dir: &Path, base: &Path, out: &mut BTreeMap<String, String>) {
         if p.is_dir() {
             out.insert(rel, "dir".into());
             tree(&p, base, out);
-        } else {
+        } else if std::fs::metadata(&p).map(|m| m.is_file()).unwrap_or(false) {
             let b = std::fs::read(&p).unwrap_or_default();
             out.insert(rel, format!("file:{}:{:x}", b.len(), fnv64(&b)));
+        } else {
+            // a FIFO or a device: reading it would block or consume what the process is to read
+            out.insert(rel, "special".into());
         }
     }
 }
@@ -402,8 +405,14 @@ impl Runner {
             "relative-dir" => Path::new(&main_dir).parent().map(|p| p.display().to_string()).unwrap_or_else(|| root.to_string()),
             _ => root.to_string(),
         };
-        let _ = std::fs::create_dir_all(&cwd);
         let outdir = format!("{}/out", root);
+        // the working directory is part of the environment too (only varied when the main file is named absolutely)
+        let cwd = match extra_env.iter().find(|(k, _)| k == "SYLT_SIM_CWD").map(|(_, v)| v.as_str()) {
+            Some("/") if cell.spelling == "absolute" => "/".to_string(),
+            Some("out-dir") if cell.spelling == "absolute" => outdir.clone(),
+            _ => cwd,
+        };
+        let _ = std::fs::create_dir_all(&cwd);
         if cell.target != "O8-left-over-from-previous-compile" {
             let _ = std::fs::remove_dir_all(&outdir);
         }
@@ -416,6 +425,9 @@ impl Runner {
             "help" => args.push("--help".into()),
             "noargs" => {}
             m => {
+                if extra_env.iter().any(|(k, v)| k == "SYLT_SIM_VERBOSE" && v == "1") {
+                    args.push("-v".into());
+                }
                 if let Some(r) = &cell.require {
                     args.push("--require".into());
                     args.push(r.clone());
@@ -535,6 +547,9 @@ impl Runner {
                     let real = format!("{}{}", root, p.strip_prefix(SIM_ROOT).unwrap_or(p));
                     let _ = Command::new("touch").arg("-d").arg(format!("@{}", v)).arg(&real).stdout(Stdio::null()).stderr(Stdio::null()).status();
                 }
+                continue;
+            }
+            if k == "SYLT_SIM_CWD" || k == "SYLT_SIM_VERBOSE" {
                 continue;
             }
             if k == "SYLT_SIM_CPUS" {
@@ -850,6 +865,27 @@ pub fn judge(cell: &Cell, exp: &Expected, obs: &ProcObs, root: &str, preamble: &
     CellVerdict { violations: vs, observations: notes }
 }
 
+/// A model expectation rather than the library's list: n statements of one block that each use an unknown name are
+/// n independent errors, and each is printed - wherever the compilation is reached at all (with a file or stdout
+/// as the target, or with a working interpreter).
+pub fn judge_model(prog_label: &str, cell: &Cell, obs: &ProcObs) -> Vec<Violation> {
+    let mut vs = Vec::new();
+    if let Some(n) = prog_label.strip_prefix("errors-in-one-block:").and_then(|n| n.parse::<usize>().ok()) {
+        let compiled = match cell.mode.as_str() {
+            "file" | "stdout" => true,
+            "run" => cell.peer == "P1-ok",
+            _ => false,
+        };
+        if compiled && cell.input == "present" && cell.fault.is_none() && !obs.timed_out {
+            let all = format!("{}{}", String::from_utf8_lossy(&obs.stdout), String::from_utf8_lossy(&obs.stderr));
+            if let Some(k) = (0..n).find(|k| !all.contains(&format!("zz_nope_{}_q", k))) {
+                vs.push(v("errors-not-printed", "one-of-several-in-a-block", format!("[{}] {} statements of one block each use an unknown name; the error for zz_nope_{}_q is not in the output", cell.label(), n, k)));
+            }
+        }
+    }
+    vs
+}
+
 // ------------------------------------------------------------------------------------
 // program sampling
 
@@ -909,7 +945,27 @@ pub fn single_error_program(kind: usize) -> Program {
     Program { files, main, label: format!("single-error:{}", name), std_free: false }
 }
 
+/// n statements in one function body, each using a different unknown name.
+pub fn errors_in_one_block_program(n: usize) -> Program {
+    let main = format!("{}/blk/main.sy", SIM_ROOT);
+    let mut text = String::from("start :: fn do\n    a := 1\n");
+    for k in 0..n {
+        match k % 3 {
+            0 => text.push_str(&format!("    b{} := a + zz_nope_{}_q\n", k, k)),
+            1 => text.push_str(&format!("    zz_nope_{}_q(a)\n", k)),
+            _ => text.push_str(&format!("    if zz_nope_{}_q do\n        a <=> 1\n    end\n", k)),
+        }
+    }
+    text.push_str("    a <=> 1\nend\n");
+    let mut files = BTreeMap::new();
+    files.insert(main.clone(), text);
+    Program { files, main, label: format!("errors-in-one-block:{}", n), std_free: false }
+}
+
 pub fn sample_program(seed: u64, index: u64, corpus: &Corpus) -> Program {
+    if index % 40 == 9 {
+        return errors_in_one_block_program(2 + (index / 40) as usize % 7);
+    }
     if index % 10 == 7 {
         return single_error_program((index / 10) as usize);
     }
@@ -1056,7 +1112,8 @@ pub fn run_c20(tier: &str, batch_seed: u64) -> LayerBResult {
                     if ci == 0 {
                         accepted_plain = exp.accepted;
                     }
-                    let verdict = judge(cell, exp, &obs, &root_used, &preamble, exp_cache.get(&plain_key));
+                    let mut verdict = judge(cell, exp, &obs, &root_used, &preamble, exp_cache.get(&plain_key));
+                    verdict.violations.extend(judge_model(&prog.label, cell, &obs));
                     // determinism of layer B itself: a sample of cells is run twice
                     let rerun = (seed ^ ci as u64) % 8 == 0;
                     let mut mismatch = false;
@@ -1232,7 +1289,8 @@ pub fn replay(doc: &J, id: &str) -> i32 {
         let exp = expected_for(&prog, &root, &cell.require, cell.no_std, main_missing);
         let plain = expected_for(&prog, &root, &None, cell.no_std, main_missing);
         let obs = runner.run_cell(&prog, &cell, &root, &[]);
-        let verdict = judge(&cell, &exp, &obs, &root, &crate::props::preamble_text(), Some(&plain));
+        let mut verdict = judge(&cell, &exp, &obs, &root, &crate::props::preamble_text(), Some(&plain));
+        verdict.violations.extend(judge_model(&prog.label, &cell, &obs));
         print!("{}", obs.history(&root));
         match verdict.violations.iter().find(|x| id == "*" || x.id() == id) {
             Some(x) => {
@@ -1293,6 +1351,8 @@ const ENVS: &[&[(&str, &str)]] = &[
     &[],
     &[("TMPDIR", "/nonexistent-tmpdir-zz"), ("SYLT_SIM_CPUS", "first")],
     &[("TMPDIR", "/dev/shm"), ("SYLT_SIM_CPUS", "first-two")],
+    &[("SYLT_SIM_CWD", "/"), ("SYLT_SIM_VERBOSE", "1")],
+    &[("SYLT_SIM_CWD", "out-dir")],
     &[("SYLT_SIM_CLOCK_OFFSET", "86400"), ("SYLT_SIM_SOURCE_MTIME", "978307200")],
     &[("SYLT_SIM_CLOCK_OFFSET", "1000000000"), ("TZ", "Asia/Kathmandu")],
     &[("SYLT_SIM_CLOCK_OFFSET", "-1500000000"), ("SYLT_SIM_SOURCE_MTIME", "2147483000")],
@@ -1419,6 +1479,68 @@ fn c16_peer_schedule_divergence(runner: &Runner, prog: &Program, root: &str) -> 
     None
 }
 
+/// The reader seam of the real process: the main file arrives through a FIFO in two pieces, the cut in the middle
+/// of a multi-byte character and a pause before the second piece (a short read), against the same bytes in a
+/// regular file. The main file gets one extra global with a non-ASCII string so that there is such a character.
+fn c16_short_read_divergence(runner: &Runner, prog: &Program, root: &str, seed: u64) -> Option<String> {
+    use std::os::unix::fs::OpenOptionsExt;
+    let main_real = format!("{}{}", root, prog.main.strip_prefix(SIM_ROOT).unwrap_or(&prog.main));
+    let original = prog.files.get(&prog.main)?.clone();
+    let text = format!("zzq_fifo_{} :: \"bl\u{e5}b\u{e4}r \u{20ac} \u{1f980}\"\n{}", seed % 1000, original);
+    let cell = Cell { mode: "file".into(), require: None, no_std: false, target: "O1-absent".into(), peer: String::new(), input: "present".into(), spelling: "absolute".into(), fault: None, flags_last: false };
+    let see = |o: &ProcObs| format!("exit={:?}\nfile={:?}\nstdout:\n{}", o.exit, o.target_bytes.as_ref().map(|b| (b.len(), fnv64(b))), normalise(root, &strip_ansi(&String::from_utf8_lossy(&o.stdout))));
+    let restore = || {
+        let _ = std::fs::remove_file(&main_real);
+        let _ = std::fs::write(&main_real, &original);
+    };
+    let _ = std::fs::write(&main_real, &text);
+    let a_obs = runner.run_cell(prog, &cell, root, &[]);
+    if a_obs.exit != Some(0) {
+        restore();
+        return None;
+    }
+    let a = see(&a_obs);
+    // cut inside one of the multi-byte characters of the first line
+    let bytes = text.clone().into_bytes();
+    let multi: Vec<usize> = (1..bytes.len().min(64)).filter(|i| bytes[*i] & 0xC0 == 0x80).collect();
+    let cut = multi[(seed as usize / 7) % multi.len()];
+    let _ = std::fs::remove_file(&main_real);
+    let made = Command::new("mkfifo").arg(&main_real).status().map(|s| s.success()).unwrap_or(false);
+    if !made {
+        restore();
+        return None;
+    }
+    let path = main_real.clone();
+    let pause = [20u64, 60, 150][(seed % 3) as usize];
+    let writer = std::thread::spawn(move || {
+        if let Ok(mut f) = std::fs::OpenOptions::new().write(true).open(&path) {
+            let _ = f.write_all(&bytes[..cut]);
+            let _ = f.flush();
+            std::thread::sleep(Duration::from_millis(pause));
+            let _ = f.write_all(&bytes[cut..]);
+        }
+    });
+    let b_obs = runner.run_cell(prog, &cell, root, &[]);
+    // release the writer if the process never opened (or never drained) the FIFO
+    if !writer.is_finished() {
+        if let Ok(mut r) = std::fs::OpenOptions::new().read(true).custom_flags(0o4000).open(&main_real) {
+            let mut buf = [0u8; 65536];
+            let t0 = Instant::now();
+            while !writer.is_finished() && t0.elapsed() < Duration::from_secs(5) {
+                let _ = r.read(&mut buf);
+                std::thread::sleep(Duration::from_millis(2));
+            }
+        }
+    }
+    let _ = writer.join();
+    restore();
+    let b = see(&b_obs);
+    if a != b {
+        return Some(format!("the main file read from a regular file vs through a FIFO in two pieces (cut at byte {}, inside a multi-byte character, {} ms pause): {}", cut, pause, crate::props::first_diff(&a, &b)));
+    }
+    None
+}
+
 fn replay_c16(doc: &J, prog: &Program, runner: &Runner, id: &str) -> i32 {
     let reps = doc.get("layer_b").map(|l| l.u64_of("repetitions")).unwrap_or(32).max(2) as usize;
     let root = runner.layout(prog, "p", false);
@@ -1433,7 +1555,7 @@ fn replay_c16(doc: &J, prog: &Program, runner: &Runner, id: &str) -> i32 {
         }
     }
     if first.starts_with("exit=Some(0)") {
-        if let Some(d) = c16_peer_schedule_divergence(runner, prog, &root).or_else(|| c16_stdout_cwd_divergence(runner, prog, &root)) {
+        if let Some(d) = c16_peer_schedule_divergence(runner, prog, &root).or_else(|| c16_stdout_cwd_divergence(runner, prog, &root)).or_else(|| (0..6).find_map(|s| c16_short_read_divergence(runner, prog, &root, doc.u64_of("index") + s))) {
             println!("REPRODUCED {}", id);
             println!("{}", d);
             println!("VIOLATION property=C16 replay=<this file>");
@@ -1446,7 +1568,7 @@ fn replay_c16(doc: &J, prog: &Program, runner: &Runner, id: &str) -> i32 {
 
 pub fn run_c16_processes(tier: &str, batch_seed: u64) -> LayerBResult {
     let n_programs: u64 = std::env::var("SYLT_SIM_C16_PROGRAMS").ok().and_then(|v| v.parse().ok()).unwrap_or(if tier == "quick" { 160 } else { 2_000 });
-    let reps: usize = std::env::var("SYLT_SIM_C16_REPS").ok().and_then(|v| v.parse().ok()).unwrap_or(if tier == "quick" { 12 } else { 48 });
+    let reps: usize = std::env::var("SYLT_SIM_C16_REPS").ok().and_then(|v| v.parse().ok()).unwrap_or(if tier == "quick" { 14 } else { 56 });
     if !Path::new(&sylt_bin()).exists() {
         let mut cov = J::obj();
         cov.put("harness.layer_b_binary_missing", J::u(1));
@@ -1490,6 +1612,9 @@ pub fn run_c16_processes(tier: &str, batch_seed: u64) -> LayerBResult {
                 }
                 if diverged.is_none() && first.starts_with("exit=Some(0)") {
                     diverged = c16_stdout_cwd_divergence(&runner, &prog, &root);
+                }
+                if diverged.is_none() && first.starts_with("exit=Some(0)") && i % 4 == 1 {
+                    diverged = c16_short_read_divergence(&runner, &prog, &root, seed);
                 }
                 let mut r = result.lock().unwrap();
                 r.0 += 1;
